@@ -107,7 +107,7 @@ def parsePrim : String → Option Prim
   | "byteslen" => some .byteslen | "bytesrange" => some .bytesrange | "peekbytes" => some .peekbytes
   | "utf8" => some .utf8 | "bitbufrange" => some .bitbufrange | "alignbits" => some .alignbits
   | "structn" => some .structn | "errorf" => some .errorf | "fatalf" => some .fatalf | "iopanic" => some .iopanic
-  | "leastbytes" => some .leastbytes | "leastbits" => some .leastbits
+  | "leastbytes" => some .leastbytes | "leastbits" => some .leastbits | "iszero" => some .iszero
   | _ => none
 
 def coreVerdict (sp sa sb spos sf obs : String) : String :=
@@ -131,6 +131,7 @@ def stepC06 (op obs : String) : String :=
   | "allfmt" :: _ => batchVerdict obs
   | "fields" :: _ => batchVerdict obs
   | "types" :: _ => batchVerdict obs
+  | "runs" :: _ => batchVerdict obs
   | ["d", _, _, _, _] => decodeVerdict obs
   | ["i", _, _, _, _] =>
     if isPanic obs then knownVerdict obs
